@@ -421,7 +421,8 @@ def corpus_schedule(tier, seed, rnd):
             for sd in seeds:
                 N = rnd.choice(Ns)
                 cc = dict(c, width=w, N=N, seed=sd, rate=rnd.choice([0.5, 1.0, 2.0]),
-                          budget=300 if tier == "quick" else 800)
+                          budget=300 if tier == "quick" else 800,
+                          cut=rnd.choice([None, None, None, 0.0, 0.8]))     # likelihood exactly zero on part of the support
                 specs.append(cc)
     # fixed
     nsteps = [1, 2, 3, 5, 6, 7, 10, 49] if tier == "quick" else [1, 2, 3, 4, 5, 6, 7, 9, 10, 11, 13, 20, 49, 100]
@@ -667,7 +668,7 @@ def corpus_c20(tier, seed, rnd):
             for sd in ([1, 2] if tier == "quick" else [1, 2, 3, 4, 5, 6]):
                 specs.append({"id": f"f{k:04d}", "builder": "flow_pair",
                               "params": {"cfg": {"backend": backend, "dtype": dtype, "seed": sd + seed,
-                                                 "epochs": 2}}})
+                                                 "epochs": 2, "seed_type": ["int", "np.int64", "np.uint32"][k % 3]}}})
                 k += 1
     return specs
 
